@@ -44,7 +44,7 @@ NONBINDING = ({}, {"D_total": 100000}, {"tol": 1e-15}, {"tol": 1e-15, "D_total":
 def plan(tier):
     if tier == "thorough":
         return {"cases": 12000, "shards": 16, "budget_s": 800}
-    return {"cases": 1500, "shards": 8, "budget_s": 110}
+    return {"cases": 1300, "shards": 8, "budget_s": 110}
 
 
 def floors(tier):
